@@ -167,6 +167,58 @@ def run(tier, seed):
                 texts.append("CAnyIter (mkShape %s %s %s) [%s] %d [%s]" % (
                     "true" if outer else "false", {"list": "CList", "iter": "CIter", "async": "CAsync", "aiterable": "CAsync"}[cont], "true" if iaw else "false",
                     "; ".join(coq_val(x) for x in base), take, "; ".join(coq_ev(e) for e in log)))
+    # ---- any_iter, further shapes (results only; the model covers the 12 shapes above): an iterable that only offers the
+    # sequence protocol (__getitem__ from 0 until IndexError), and awaitable items that are no coroutines (objects with
+    # __await__, like futures) -- from every kind of container, given directly or through an awaitable
+    class GetItemSeq:
+        def __init__(self, items):
+            self._items = list(items)
+
+        def __getitem__(self, i):
+            return self._items[i]
+
+    class AwItem:
+        def __init__(self, log, k, v):
+            self.log, self.k, self.v = log, k, v
+
+        def __await__(self):
+            self.log.append(("awaititem", self.k))
+            return self.v
+            yield
+    for n in (0, 1, 4):
+        base = mk_items(n)
+        for outer, cont, kind in itertools.product([False, True], ["list", "iter", "async", "aiterable", "getitem"], ["plain", "coroutine", "awaitobj", "mixed"]):
+            for take in sorted({0, 1, n, n + 1}):
+                log = []
+                if kind == "plain":
+                    its = list(base)
+                elif kind == "coroutine":
+                    its = wrap_items(log, base, True)
+                elif kind == "awaitobj":
+                    its = [AwItem(log, k, v) for k, v in enumerate(base)]
+                else:
+                    its = [AwItem(log, k, v) if k % 2 else v for k, v in enumerate(base)]
+                c = {"list": lambda: LogList(log, its), "iter": lambda: LogIter(log, its), "async": lambda: LogAsync(log, its),
+                     "aiterable": lambda: LogAsyncIterable(log, its), "getitem": lambda: GetItemSeq(its)}[cont]()
+                obj = c
+                if outer:
+                    async def o(c=c):
+                        return c
+                    obj = o()
+                try:
+                    got = drive(take_n(a.any_iter(obj), take, log))
+                    err = None
+                except BaseException as e:  # noqa
+                    got, err = None, e
+                close_unawaited(its + [obj])
+                rep.count(("any_iter-shapes", n, outer, cont, kind, take), n > 0 and take > 0)
+                want = base[:take]
+                if err is not None or len(got) != len(want) or builtins.any(x is not y for x, y in builtins.zip(got, want)):
+                    fails += 1
+                    rep.violation("adapters:any_iter", {"shape": [outer, cont, kind], "items": n, "take": take,
+                                                       "why": "any_iter over a %s container%s with %s items yielded %r, expected the first %d of the %d items (%r)"
+                                                       % (cont, " given through an awaitable" if outer else "", kind, got, take, n, err)})
+                    break
     # ---- await_each
     for n in range(0, 7):
         base = mk_items(n)
